@@ -81,7 +81,7 @@ def flatten_core(tree, name, plat):
 FINDING_TEMPLATE = "F|{file}|{line}|{column}|{severity}|{inconclusive:inconclusive}|{id}|{message}"
 
 
-def analyse(progs, plat, work, want_findings=False, stats=None, jobs=4):
+def analyse(progs, plat, work, want_findings=False, stats=None, jobs=4, raw=None):
     """Render the programs TU_SIZE per translation unit, run the hooked cppcheck with --dump, convert the value-flow
     section to facts.  Returns (facts per program, findings per program, posmaps)."""
     stats = stats if stats is not None else {}
@@ -113,7 +113,7 @@ def analyse(progs, plat, work, want_findings=False, stats=None, jobs=4):
     findings = [[] for _ in progs]
     for (k, chunk, path, posmap), text in zip(tus, outputs):
         st = {}
-        facts += dump2facts.extract(path + ".dump", chunk, posmap, st)
+        facts += dump2facts.extract(path + ".dump", chunk, posmap, st, raw=raw, base=k)
         for a, b in st.items():
             if isinstance(b, int):
                 stats[a] = stats.get(a, 0) + b
@@ -380,13 +380,14 @@ def run_check(pid, tier, seed, progs, plat, mode, sizes, ncore=0, core_total=0, 
         p.setdefault("only", [])
     work = vlib.mktmp(pid.lower())
     stats = {}
-    vf_facts, findings = analyse(progs, plat, work, want_findings=(mode != "valueflow"), stats=stats)
+    raw = {} if mode == "flag" else None
+    vf_facts, findings = analyse(progs, plat, work, want_findings=(mode != "valueflow"), stats=stats, raw=raw)
     if mode == "valueflow":
         facts = vf_facts
     elif mode == "verdict":
         facts = findings2facts.verdicts(progs, findings, stats)
     else:
-        facts = findings2facts.flags(progs, findings, stats)
+        facts = findings2facts.flags(progs, findings, stats, raw, plat)
     nfacts = attach(progs, facts)
     meta = {}
     for pi, fs in enumerate(facts):
